@@ -1,3 +1,315 @@
 package main
 
-func genC14(c *Ctx) {}
+// C14: function typing agrees with the published descriptors (ListFunctions) and with evaluation.
+// Every function x every receiver type expressible in a schema x conformant and over-long argument lists: the
+// validator's verdict and reported type are compared with the rule the property states, computed here from the
+// descriptor table; every accepted conformant call is then evaluated on data instantiated from the schema and the
+// kind of the result is compared with the reported type. Chains of two and three calls at random.
+
+import (
+	"encoding/json"
+	"fmt"
+	"reflect"
+	"strings"
+
+	"github.com/machship/mpath"
+	"github.com/shopspring/decimal"
+)
+
+type c14Recv struct {
+	T, IO string
+	ty    *CTy
+	data  *TV
+}
+
+func c14Receivers() []c14Recv {
+	obj := func() *CTy {
+		return &CTy{T: "struct", F: []*CField{{N: "k", M: "reg", Ty: &CTy{T: "string"}}, {N: "n", M: "reg", Ty: &CTy{T: "number"}}}}
+	}
+	objData := func(k string, n float64) *TV { return tvMap("str", [][2]any{{hx("k"), tvStr(k)}, {hx("n"), tvF64(n)}}) }
+	list := func(e *CTy) *CTy { return &CTy{T: "list", Open: 1, E: e} }
+	return []c14Recv{
+		{"String", "Single", &CTy{T: "string"}, tvStr("abcDEF")},
+		{"String", "Array", list(&CTy{T: "string"}), tvSlice(1, tvStr("abc"), tvStr("x"), tvStr("hello"))},
+		{"Number", "Single", &CTy{T: "number"}, tvF64(5)},
+		{"Number", "Array", list(&CTy{T: "number"}), tvSlice(1, tvF64(1), tvF64(2), tvF64(3.5))},
+		{"Boolean", "Single", &CTy{T: "bool"}, tvBool(true)},
+		{"Boolean", "Array", list(&CTy{T: "bool"}), tvSlice(1, tvBool(true), tvBool(false), tvBool(true))},
+		{"Object", "Single", obj(), objData("v", 2)},
+		{"Object", "Array", list(obj()), tvSlice(1, objData("v", 2), objData("w", 3), objData("x", 4))},
+		{"String", "Single", &CTy{T: "bytes"}, tvStr("abcDEF")},
+		{"String", "Array", list(&CTy{T: "bytes"}), tvSlice(1, tvStr("abc"), tvStr("x"))},
+		{"Number", "Single", &CTy{T: "int"}, tvF64(7)},
+		{"Number", "Array", list(&CTy{T: "float"}), tvSlice(1, tvF64(1.5), tvF64(2))},
+		{"Number", "Array", &CTy{T: "list", Open: 0, E: &CTy{T: "int"}}, tvSlice(1, tvF64(4))},
+		{"Any", "Single", &CTy{T: "top"}, tvStr("abc")},
+		{"Any", "Array", list(&CTy{T: "top"}), tvSlice(1, tvStr("a"), tvF64(1), tvBool(true))},
+	}
+}
+
+func c14Arg(t string, i int) string {
+	switch t {
+	case "String":
+		return `"b"`
+	case "Number":
+		return "1"
+	case "Boolean":
+		return "true"
+	}
+	return []string{`"b"`, "1", "true"}[i%3]
+}
+
+type c14Call struct {
+	N string `json:"n"`
+	K int    `json:"k"`
+	q string
+}
+
+// conformant argument lists (exact number; variadic: 0..2 of the kind) and one over-long list
+func c14ArgLists(fd mpath.FunctionDescriptor) (conf [][]string, over []string) {
+	var fixed []string
+	variadic := ""
+	for i, p := range fd.Params {
+		if string(p.IOType) == "Variadic" {
+			variadic = string(p.Type)
+			break
+		}
+		a := c14Arg(string(p.Type), i)
+		switch string(fd.Name) {
+		case "Select":
+			a = `"$"` // the argument is a query
+		case "Index":
+			a = "0" // in range for every non-empty array
+		}
+		fixed = append(fixed, a)
+	}
+	if variadic != "" {
+		for n := 0; n <= 2; n++ {
+			l := append([]string{}, fixed...)
+			for j := 0; j < n; j++ {
+				l = append(l, c14Arg(variadic, j))
+			}
+			conf = append(conf, l)
+		}
+		return conf, nil
+	}
+	conf = [][]string{fixed}
+	over = append(append([]string{}, fixed...), "1")
+	return conf, over
+}
+
+func c14Admits(vt, vio, rt, rio string) (ok, unspec bool) {
+	if vt == "Any" && vio != "Variadic" && vio != rio {
+		return false, true
+	}
+	return (vt == "Any" || vt == rt) && (vio == "Variadic" || vio == rio), false
+}
+
+// the type the property says is reported: the descriptor's Returns, the element's type for First/Last/Index on a typed list
+func c14Reports(fd mpath.FunctionDescriptor, prevT, prevIO string) (string, string) {
+	rt, rio := string(fd.Returns.Type), string(fd.Returns.IOType)
+	if rt != "Any" {
+		return rt, rio
+	}
+	switch string(fd.Name) {
+	case "Select":
+		return "Any", rio
+	case "AsArray":
+		if prevIO == "Single" {
+			return prevT, rio
+		}
+		return "Any", rio
+	}
+	if prevIO == "Array" {
+		return prevT, rio
+	}
+	return "Any", rio
+}
+
+func c14KindOK(ty, io string, v any) bool {
+	rv := reflect.ValueOf(v)
+	for rv.IsValid() && (rv.Kind() == reflect.Pointer || rv.Kind() == reflect.Interface) && !rv.IsNil() {
+		rv = rv.Elem()
+	}
+	isList := rv.IsValid() && (rv.Kind() == reflect.Slice || rv.Kind() == reflect.Array)
+	switch io {
+	case "Array":
+		return isList // for Array results only array-ness is compared
+	case "Variadic":
+		if isList {
+			return true
+		}
+	}
+	_, isDec := v.(decimal.Decimal)
+	switch ty {
+	case "String":
+		return rv.IsValid() && rv.Kind() == reflect.String
+	case "Number":
+		return isDec
+	case "Boolean":
+		return rv.IsValid() && rv.Kind() == reflect.Bool
+	case "Object":
+		return rv.IsValid() && !isDec && (rv.Kind() == reflect.Map || rv.Kind() == reflect.Struct)
+	}
+	return true // Any
+}
+
+func genC14(c *Ctx) {
+	c.Rule = "exhaustive: every function of ListFunctions() x 10 receiver types (String, Number, Boolean, Object, Any; Single and Array) x conformant argument lists (exact count; variadic 0..2) and one over-long list, validated against a schema `input: {recv: <type>}`; oracle from the descriptor table: accept iff known, no more arguments than declared, ValidOn admits the receiver type, reported type = Returns (element type for First/Last/Index on a typed list); pairs whose only mismatch is Single-vs-Array under ValidOn Any are unspecified (class unspecified/..., not enforced). Every accepted conformant call is evaluated on data instantiated from the schema: the result must have the reported kind (array-ness only for Array results) or fail with a data-dependent error (Parse* on text that is not a document). Then random chains of two and three calls, validated and evaluated the same way. distinct = distinct (class, function, verdict)"
+	fns := mpath.ListFunctions()
+	names := funcNames()
+	recvs := c14Receivers()
+	unknown := 0
+	run := func(rc c14Recv, calls []c14Call, cls string, conformant bool) {
+		root := &CTy{T: "struct", F: []*CField{{N: "input", M: "reg", Ty: &CTy{T: "struct", F: []*CField{
+			{N: "recv", M: "reg", Ty: rc.ty}, {N: "_dependencies", M: "reg", H: 1, Ty: &CTy{T: "deplist", V: []string{}}}}}}}}
+		g := &cueGen{}
+		txt := cueSchemaText(g, root)
+		q := "$.input.recv"
+		for _, cl := range calls {
+			q += "." + cl.q
+		}
+		// expected by the property's rule
+		pt, pio := rc.T, rc.IO
+		accept, unspec := true, false
+		for _, cl := range calls {
+			fd, ok := fns[mpath.FT_FunctionType(cl.N)]
+			if !ok {
+				accept = false
+				break
+			}
+			nmax := len(fd.Params)
+			variadic := false
+			for _, p := range fd.Params {
+				if string(p.IOType) == "Variadic" {
+					variadic = true
+				}
+			}
+			if cl.K > nmax && !variadic {
+				accept = false
+			}
+			ad, us := c14Admits(string(fd.ValidOn.Type), string(fd.ValidOn.IOType), pt, pio)
+			if us {
+				unspec = true
+			}
+			if !ad && !us {
+				accept = false
+			}
+			pt, pio = c14Reports(fd, pt, pio)
+		}
+		expect := "REJ"
+		if accept {
+			expect = "ACC " + pt + " " + pio
+		}
+		if unspec {
+			cls = "unspecified/" + cls
+		}
+		line, _ := json.Marshal(map[string]any{"s": root, "p": []string{"input", "recv"}, "cp": "", "calls": calls, "dom": !unspec})
+		o := cueValidateGuarded(q, txt, "")
+		c.Record(line, o.Line, cls, !unspec, cls+"|"+q[len("$.input.recv"):]+"|"+rc.T+rc.IO, o.Line,
+			map[string]any{"query": q, "schema": txt, "impl": o.Line, "expected": expect, "class": cls})
+		mk := func(kind, why, key string) Violation {
+			return Violation{Kind: kind, Query: q, QueryHex: hx(q), Expected: expect, Got: o.Line, Why: why, Cls: cls, Key: key,
+				Extra: map[string]any{"schema": txt, "errors": trunc(o.Errs, 300), "receiver": rc.T + "/" + rc.IO}}
+		}
+		switch o.Line {
+		case "PANIC", "TIMEOUT", "NEITHER":
+			c.addViolation(mk("panic", "CueValidate did not return a verdict: "+o.Line+" "+trunc(o.Errs, 120), "panic:"+calls[len(calls)-1].N))
+			return
+		}
+		if unspec {
+			return
+		}
+		got := o.Line
+		if strings.HasPrefix(got, "REJ") {
+			got = "REJ"
+		}
+		if expect != got && !(strings.HasSuffix(expect, "Array") && strings.HasSuffix(got, "Array") && strings.HasPrefix(got, "ACC")) {
+			c.addViolation(mk("oracle", "the validator's verdict or reported type differs from the descriptor rule", "typing:"+calls[len(calls)-1].N+":"+rc.T+rc.IO+":"+strings.Fields(expect)[0]+">"+strings.Fields(got)[0]))
+			return
+		}
+		if !accept || !conformant {
+			return
+		}
+		// evaluate on conforming data
+		data := tvMap("str", [][2]any{{hx("input"), tvMap("str", [][2]any{{hx("recv"), rc.data}})}})
+		out := runCase(q, buildAny(data))
+		c.Extra["evaluated"] = asInt(c.Extra["evaluated"]) + 1
+		switch out.Class {
+		case "PANIC", "TIMEOUT", "PARSE-PANIC":
+			c.addViolation(mk("panic", "evaluation of an accepted call did not return normally: "+out.Class+" "+trunc(out.Msg, 120), "evalpanic:"+calls[len(calls)-1].N))
+		case "ok":
+			op, _ := mpath.ParseString(q)
+			d := buildAny(data)
+			res, _ := op.Do(d, d)
+			rt := strings.Fields(o.Line)
+			if len(rt) == 3 && !c14KindOK(rt[1], rt[2], res) {
+				v := mk("oracle", fmt.Sprintf("accepted with reported type %s/%s but evaluation returns %T", rt[1], rt[2], res), "kind:"+calls[len(calls)-1].N+":"+rc.T+rc.IO)
+				v.Got = out.Exact
+				c.addViolation(v)
+			}
+		default:
+			// an error: only data-dependent ones are allowed
+			last := calls[len(calls)-1].N
+			dataDep := false
+			for _, cl := range calls {
+				if strings.HasPrefix(cl.N, "Parse") {
+					dataDep = true // the text is not a document of that format
+				}
+			}
+			_ = last
+			if !dataDep {
+				v := mk("oracle", "an accepted, conformant call fails on conforming data: "+trunc(out.Msg, 200), "evalerr:"+calls[len(calls)-1].N+":"+rc.T+rc.IO)
+				v.Got = out.Class
+				c.addViolation(v)
+			} else {
+				c.Extra["data_dependent_errors"] = asInt(c.Extra["data_dependent_errors"]) + 1
+			}
+		}
+	}
+	mkCall := func(name string, args []string) c14Call {
+		return c14Call{N: name, K: len(args), q: name + "(" + strings.Join(args, ",") + ")"}
+	}
+	for _, fn := range names {
+		fd := fns[mpath.FT_FunctionType(fn)]
+		conf, over := c14ArgLists(fd)
+		for _, rc := range recvs {
+			for _, args := range conf {
+				run(rc, []c14Call{mkCall(fn, args)}, "single/conformant", true)
+			}
+			if over != nil {
+				run(rc, []c14Call{mkCall(fn, over)}, "single/over-long", false)
+			}
+		}
+	}
+	// an unknown function name parses (IsInvalid) and must be rejected
+	for _, rc := range recvs {
+		run(rc, []c14Call{{N: "NoSuchFunction", K: 0, q: "NoSuchFunction()"}}, "single/unknown", false)
+		unknown++
+	}
+	c.Exhaustive = true
+	// chains of two and three calls
+	n := c.scale(6000, 60000)
+	for i := 0; i < n; i++ {
+		rc := recvs[c.R.Intn(len(recvs))]
+		depth := 2 + c.R.Intn(2)
+		var calls []c14Call
+		pt, pio := rc.T, rc.IO
+		for d := 0; d < depth; d++ {
+			// prefer functions whose ValidOn admits the current type, so that chains are mostly valid
+			var fn string
+			for try := 0; try < 6; try++ {
+				fn = names[c.R.Intn(len(names))]
+				fd := fns[mpath.FT_FunctionType(fn)]
+				if ok, _ := c14Admits(string(fd.ValidOn.Type), string(fd.ValidOn.IOType), pt, pio); ok || c.R.Intn(8) == 0 {
+					break
+				}
+			}
+			fd := fns[mpath.FT_FunctionType(fn)]
+			conf, _ := c14ArgLists(fd)
+			calls = append(calls, mkCall(fn, conf[c.R.Intn(len(conf))]))
+			pt, pio = c14Reports(fd, pt, pio)
+		}
+		run(rc, calls, fmt.Sprintf("chain/%d", depth), true)
+	}
+}
